@@ -1,6 +1,7 @@
 """C16 generators (shared by checks/C16.py and the C07 / C19 re-executions through SUITES).
 Scenario commands for harness/drv_schemes.c: standard parameter set x private-key class x hash class x generator tape
-x alterations.  Structure is enumerated, data seeded.  Python's elliptic-curve arithmetic below only CONSTRUCTS inputs
+x alterations, and constructed histories that force the repetitions of the signing loops (retry_cmds).  Structure is
+enumerated, data seeded.  Python's elliptic-curve arithmetic below only CONSTRUCTS inputs
 (e.g. the private key that makes the GOST signature component s vanish for a given nonce); every verdict is TLC's."""
 import os, sys, json, random
 sys.path.insert(0, os.path.join(os.path.dirname(os.path.abspath(__file__)), "..", "tools"))
@@ -126,6 +127,50 @@ def dstu_cmds(rng, tier, params):
     return out
 
 
+# ------------------------------------------------------------------ repetitions of the signing loops (constructed histories)
+# plan = the branch every draw of the tape takes before the final admissible draw; the driver constructs hash / private key
+# so that the draws really take them (harness/drv_schemes.c doDstuRetry); structure (plans x sets x hash / key / ld classes)
+# is enumerated, octets are seeded through salt
+DSTU_PLANS = ["e0,etop", "r0", "s0", "e0,r0,s0", "s0,etop,r0"]
+G12S_PLANS = ["k0,kq,kmax", "s0", "kmax,s0,k0"]
+B96_PLANS = ["k0,kq,kmax", "kmax,k0"]
+WHY = {"e0": "e=0", "etop": "e=0", "r0": "r=0", "s0": "s=0", "k0": "k=0", "kq": "k>=q", "kmax": "k>=q"}
+
+
+def want_of(plan):
+    """the branch the specification has to find for every draw of the tape (the driver logs the same list as `want`)"""
+    return [WHY[t] for t in plan.split(",") if t] + ["used"]
+
+
+def retry_cmds(rng, tier, pr, dstu_pr):
+    out = []
+    for si, name in enumerate(DSTU_SETS):
+        P = dstu_pr[name]
+        m = P["f"][0]; no = (m + 7) // 8
+        n = le(P["n"]); nb = n.bit_length(); ono = (nb + 7) // 8
+        hcls = [("h=exact", rng.getrandbits(8 * no), no), ("h=short", rng.getrandbits(64), 8), ("h=long", rng.getrandbits(512), 64)]
+        dcls = [("d=seeded", rng.getrandbits(nb - 1) | 1), ("d=1", 1), ("d=max", (1 << (nb - 1)) - 1)]
+        lds = [("ld=min", 16 * ono), ("ld=min+16", 16 * ono + 16), ("ld=1024", 1024)]
+        for pi, plan in enumerate(DSTU_PLANS):
+            hc, hv, hl = hcls[(si + pi) % 3]; dc, dv = dcls[(si + pi) % 3]; lc, ld = lds[(si + 2 * pi) % 3]
+            cls = "%s:%s:%s" % ("d=tied" if "s0" in plan else dc, "h=tied" if "r0" in plan else hc, lc)
+            out.append("dstuRetry name=%s gen=%d plan=%s d=%s hash=%s ld=%d salt=%d cls=%s" % (
+                name, rng.randrange(1, 1 << 30), plan, hx(dv, ono), hx(hv, hl), ld, rng.randrange(1, 1 << 30), cls))
+    for si, name in enumerate(G12S_SETS):
+        P = pr[("g12s", name)]
+        l = P["l"]; mo = l // 8; q = le(P["q"])
+        hcls = [("h=seeded", rng.getrandbits(l)), ("h=q", q), ("h=0", 0)]
+        for pi, plan in enumerate(G12S_PLANS):
+            hc, hv = hcls[(si + pi) % 3]
+            cls = "%s:%s" % ("d=tied" if "s0" in plan else "d=seeded", hc)
+            out.append("g12sRetry name=%s plan=%s d=%s hash=%s salt=%d cls=%s" % (name, plan, hx(rng.randrange(1, q), mo), be(hv, mo), rng.randrange(1, 1 << 30), cls))
+    q = le(pr[("bign96", "")]["q"])
+    for pi, plan in enumerate(B96_PLANS):
+        hv = [rng.getrandbits(192), (1 << 192) - 1][pi % 2]
+        out.append("bign96Retry plan=%s d=%s hash=%s oid=%s salt=%d cls=d=seeded:%s" % (plan, hx(rng.randrange(1, q), 24), hx(hv, 24), OID_BELT, rng.randrange(1, 1 << 30), ["h=seeded", "h=ones"][pi % 2]))
+    return out
+
+
 # ------------------------------------------------------------------ pfok
 def pfok_cmds(rng, tier, params):
     out = []
@@ -174,7 +219,9 @@ def _suite_cmds(ctx, tier):
     pr = load_params(drv)
     g = {n: pr[("g12s", n)] for n in G12S_SETS}
     cmds = g12s_cmds(rng, "quick", g)[::6] + bign96_cmds(rng, "quick", pr[("bign96", "")])[::3]
-    cmds += dstu_cmds(rng, "quick", dstu_params(drv))[::9] + pfok_cmds(rng, "quick", {n: pr[("pfok", n)] for n in PFOK_SETS})[:2] + gf2_cmds("quick")[::3]
+    dpr = dstu_params(drv)
+    cmds += dstu_cmds(rng, "quick", dpr)[::9] + pfok_cmds(rng, "quick", {n: pr[("pfok", n)] for n in PFOK_SETS})[:2] + gf2_cmds("quick")[::3]
+    cmds += retry_cmds(rng, "quick", pr, dpr)[::7]
     return ("\n".join(cmds) + "\n").encode()
 
 
